@@ -39,6 +39,11 @@ def iter_at(g, u0, j, aux_key=""):
     """pytree with the shape of u0 whose leaves are ITER[g](j, u0); j: int / z3 Int term.  ITER(0) is u0 itself."""
     if isinstance(j, int) and j == 0:
         return u0
+    if isinstance(j, int) and engine.CURRENT is not None and engine.CURRENT.concrete is not None and aux_key == "":
+        out = u0   # replay mode: unroll the definition
+        for _ in range(j):
+            out = g(out)
+        return out
     leaves0 = [const_arr(l) for l in _leaves(u0)]
     # one combined identity for the whole initial pytree: PAIR-chain of all leaves' elements is the interning key
     out = []
